@@ -305,7 +305,7 @@ def install():
         return run_step
 
     _patch(DemeTree, "run_step", w_step)
-    _patch(DemeTree, "run", w_simple("run"))
+    _patch(DemeTree, "run", w_simple("runloop"))
     _patch(DemeTree, "run_metaepoch", w_simple("mephase"))
 
     def w_sprout(orig):
